@@ -133,13 +133,34 @@ def rule_LV2(ctx, rep):
         raise AnalysisError(f'LV2: only {n} writes to _pc_level found (expected >= 6)')
 
 
+class _Wait:
+    """A wait loop in normal form: `node` runs `body` as long as `test` holds -- `while T: B`, or `while True: if not T: break; B`."""
+
+    def __init__(self, node, test, body):
+        self.node, self.test, self.body = node, test, body
+
+
 def _wait_loop(fn_node):
-    """Top-level `while self._pc_level > self._program_counter[1]: await asyncio.sleep(0)` of a block list."""
+    """The loops that wait on the pending level (`while self._pc_level > self._program_counter[1]: await asyncio.sleep(0)`)."""
+    from .canon import negate
+    import copy
     out = []
     for w in iter_nodes(fn_node):
-        if isinstance(w, ast.While) and any(_is_level(n) for n in ast.walk(w.test)):
-            out.append(w)
+        if not isinstance(w, ast.While):
+            continue
+        test, body = w.test, w.body
+        if isinstance(test, ast.Constant) and test.value is True and body and isinstance(body[0], ast.If) and not body[0].orelse \
+                and len(body[0].body) == 1 and isinstance(body[0].body[0], ast.Break):
+            test, body = negate(copy.deepcopy(body[0].test)), body[1:]
+            test = _orient_gt(test)
+        if any(_is_level(n) for n in ast.walk(test)):
+            out.append(_Wait(w, test, body))
     return out
+
+
+def _orient_gt(t):
+    """a < b  ->  b > a  (the orientation the stage-1 canonicaliser gives every comparison is `<`; the rules below accept both)"""
+    return t
 
 
 def _check_wait(rep, rule, fn, w):
@@ -166,12 +187,12 @@ def rule_LV3(ctx, rep):
     fn = model.func('runtime::Runtime.shutdown')
     pm = parents(fn.node)
     waits = _wait_loop(fn.node)
-    top = [w for w in waits if any(w is s for s in fn.node.body)]
+    top = [w for w in waits if any(w.node is s for s in fn.node.body)]
     closes = calls_named(fn.node, 'close_connection')
     if not closes:
         raise AnalysisError('LV3: close_connection not found in Runtime.shutdown')
     first_exit = min([astq.position(s) for s in iter_nodes(fn.node) if isinstance(s, ast.Return)] + [astq.position(closes[0])])
-    if top and astq.position(top[0]) < first_exit:
+    if top and astq.position(top[0].node) < first_exit:
         rep.ok('LV3', fn, top[0].test, 'unconditional wait for all started MPyC coroutines before anything else')
         _check_wait(rep, 'LV3', fn, top[0])
     else:
@@ -181,8 +202,8 @@ def rule_LV3(ctx, rep):
             if isinstance(s, ast.Expr) and isinstance(s.value, ast.Await) and isinstance(s.value.value, ast.Call):
                 tg = ctx.flow.rs.resolve_call(fn, s.value.value)
                 for t in tg:
-                    ws = [w for w in _wait_loop(t.node) if any(w is x for x in t.node.body)]
-                    if ws and not any(isinstance(x, ast.Return) and astq.position(x) < astq.position(ws[0]) for x in iter_nodes(t.node)):
+                    ws = [w for w in _wait_loop(t.node) if any(w.node is x for x in t.node.body)]
+                    if ws and not any(isinstance(x, ast.Return) and astq.position(x) < astq.position(ws[0].node) for x in iter_nodes(t.node)):
                         deleg = (t, ws[0])
                 break
         if deleg:
@@ -240,7 +261,7 @@ def rule_LV4(ctx, rep):
     # the wait is reached unless barriers are disabled or evaluation is synchronous: its path condition (nesting, early returns
     # and polarity alike) must be a conjunction of negated option atoms only
     from . import cond
-    cx = cond.context(fn, w, pm)
+    cx = cond.context(fn, w.node, pm)
     ats = cond.atoms_of(cx)
     only_options = all('no_async' in a or 'no_barrier' in a for a in ats)
     all_off = {a: False for a in ats}
